@@ -1,7 +1,7 @@
 (* C10 - The exact in-sphere predicate returns the true sign on the integer grid.
    Pinned statements only; proofs live in Proofs/. *)
 From Coq Require Import ZArith Reals List.
-From MV Require Import Model.Insphere Model.Grid Proofs.InsphereProofs Proofs.GridProofs.
+From MV Require Import Model.Insphere Model.Grid Proofs.InsphereProofs Proofs.GridProofs Proofs.GridFlocq.
 Open Scope Z_scope.
 
 (* on the grid no i64 subtraction wraps: the model with two's-complement wrap equals the
@@ -64,3 +64,13 @@ Theorem C10_iloc_real_monotone : forall A I x y : R,
   (0 <= I)%R -> (x <= y)%R -> (mant (T A I x) <= mant (T A I y))%R.
 Proof. exact iloc_real_monotone. Qed.
 Print Assumptions C10_iloc_real_monotone.
+
+(* ... and the same at the binary64 level (Flocq): for the three IEEE operations the code
+   executes, as long as no intermediate result overflows or is NaN, the value whose mantissa
+   becomes the grid coordinate is monotone in the position *)
+Theorem C10_tval_monotone_binary64 : forall A I x y : f64,
+  (0 <= b2r I)%R -> (b2r x <= b2r y)%R ->
+  fin (tval A I x) = true -> fin (tval A I y) = true ->
+  (b2r (tval A I x) <= b2r (tval A I y))%R.
+Proof. exact tval_monotone. Qed.
+Print Assumptions C10_tval_monotone_binary64.
